@@ -46,6 +46,13 @@ class ScriptSock:
     def getpeername(self): return ("peer", 1)
 
 
+class MSock(ScriptSock):
+    """part M: like a real socket, fileno() is a descriptor while the socket is open and -1 once it has been closed"""
+    def __init__(self, idx):
+        ScriptSock.__init__(self); self.idx = idx
+    def fileno(self): return -1 if self.fd_closed else 1000 + self.idx
+
+
 def data(i, n):
     return bytes(((i * 37 + k * 5 + 1) & 0xff) for k in range(n))
 
@@ -65,31 +72,40 @@ class C20(Check):
     driver = "drv_c20"
     theorems = ["Pox.C20.ioworker_stream", "Pox.C20.ioworker_drained", "Pox.C20.ioworker_after_fatal", "Pox.C20.ioworker_unguarded_defect", "Pox.C20.ioworker_shutdown",
                 "Pox.C20.shutdown_with_pending", "Pox.C20.ioworker_progress", "Pox.C20.ctl_stream",
-                "Pox.C20.ctl_quiescent", "Pox.C20.ctl_after_fatal", "Pox.C20.ctl_no_attempt_after_fatal"]
+                "Pox.C20.ctl_quiescent", "Pox.C20.ctl_after_fatal", "Pox.C20.ctl_no_attempt_after_fatal", "Pox.C20.ctl_env_disc", "Pox.C20.multi_conn"]
     anchors = [("pox/lib/ioworker/__init__.py", "IOWorker._do_send"), ("pox/lib/ioworker/__init__.py", "IOWorker._consume_send_buf"),
                ("pox/lib/ioworker/__init__.py", "IOWorker.send"), ("pox/lib/ioworker/__init__.py", "RecocoIOWorker.send_fast"), ("pox/lib/ioworker/__init__.py", "RecocoIOWorker.send"),
                ("pox/openflow/of_01.py", "DeferredSender._sliceup"), ("pox/openflow/of_01.py", "DeferredSender.send"), ("pox/openflow/of_01.py", "DeferredSender.run"),
-               ("pox/openflow/of_01.py", "Connection.send")]
+               ("pox/openflow/of_01.py", "Connection.send"), ("pox/openflow/of_01.py", "Connection.disconnect"), ("pox/openflow/of_01.py", "Connection.close")]
     design_ref = "DESIGN.md §5 C20"
     technique = ("Lean 4 proof: stream invariant over all op sequences (IOWorker) and over all interleavings of a two-actor transition system "
                  "(Connection.send steps / DeferredSender flush steps / environment) + differential correspondence against the real classes with scripted sockets")
     level_text = ("Part A theorems (ioworker_stream/_drained/_after_fatal) hold for every sequence of send/send_fast/loop iterations and every socket-outcome script. "
                   "Part B theorems (ctl_stream/ctl_quiescent/ctl_after_fatal/ctl_no_attempt_after_fatal) hold for every interleaving, at the granularity of the unlocked flag read, the direct write, the locked enqueue, "
-                  "each sender-thread write and its epilogue, of one connection with the deferred sender, every outcome script and PIPE_BUF. The model is hand-written; each run re-checks it "
+                  "each sender-thread write and its epilogue, of one connection with the deferred sender, every outcome script and PIPE_BUF; the other connections are environment actions (one defers / its entry is deleted / "
+                  "it is disconnected: ctl_env_disc, a no-op), and a disconnect of the connection itself from the cooperative side is an action too. multi_conn: in every history of whole operations on n connections sharing the "
+                  "deferred sender every connection's state is such a run, so the theorems hold per connection. The model is hand-written; each run re-checks it "
                   "against the real RecocoIOLoop/RecocoIOWorker and the real Connection + DeferredSender (thread body driven deterministically) on exhaustive short and random long scripts.")
     level_note = ("Trusted: Lean kernel, standard axioms, hand-written Model/SendPath.lean, scripted socket. Assumed runtime facts: CPython executes each modelled step atomically (GIL), "
                   "the RLock excludes, a socket that was shut down refuses every write. Parts A/B run sequential action sequences (a subset of the interleavings the theorems cover); part T runs the real "
                   "DeferredSender.run on a real second thread under the forced scheduler (harness/forcedthreads.py) and compares its traces with the model. The former race C20-R1 (a refused "
                   "write attempt after a fatal error) is repaired (fix: commit in /repo); its interleaving stays in the corpus and the full statement is theorem ctl_no_attempt_after_fatal.")
     trusted_base = ["model Model/SendPath.lean hand-written from ioworker/__init__.py and of_01.py Connection.send/DeferredSender; tied by this correspondence run",
-                    "other connections abstracted to an environment that can only set/clear the global `sending` flag under the lock"]
+                    "other connections abstracted to an environment that can only set/clear the global `sending` flag under the lock; part M runs 2-3 REAL connections on one real DeferredSender and "
+                    "compares every connection with its own view (Model/SendPath.lean Part C, `mrun`: the composition is executable glue, theorem multi_conn says every view is a Part-B run)",
+                    "part M's stand-in for select keeps select's contract: a closed socket (fileno() < 0) in a list is refused with ValueError, writable connections are reported in the order asked"]
     assumptions = ["messages passed to send are non-empty", "GIL atomicity of the modelled steps; RLock mutual exclusion", "send on a shut-down socket fails",
-                   "controller connection: `disconnected` is only ever set by a fatal SEND error in this model; a disconnect from the cooperative side (read EOF, echo timeout, application disconnect()) while data is deferred is not an action of the model",
+                   "controller connection: a disconnect from the cooperative side (read EOF, echo timeout, application disconnect()/close()) is the model action coopDisc (between two Connection.send calls: both run on the cooperative thread); "
+                   "what is queued for such a connection stays queued until the sender thread meets the dead socket (one refused write: that socket's first fatal error) or, when the socket was closed, forgets it (repair C20-3: select refuses a closed socket, "
+                   "the sender drops the queues of disconnected connections and goes on; before the repair the sender thread died there and the queued data of EVERY connection was stranded)",
                    "select never reports an exceptional condition (elist) for a connection with deferred data: DeferredSender.run would then drop the queued data silently and leave the connection up (outside the property's fault alphabet: short writes, would-block, fatal errors); likewise its outer bare `except`",
                    "'reported closed exactly once' for the controller connection is ConnectionDown: as a THEOREM it is C09's down_once (both fatal paths end in Connection.disconnect, guarded by disconnection_raised); here the oracle counts the ConnectionDown events of an announced connection on the real code after every part-B history (exactly one on the nexus and one on the connection iff a fatal error occurred, the serving task's con.close() included); part A proves it for the IOWorker",
                    "IOWorker: connecting sockets (_connecting/_try_connect) are not modelled; shutdown(send) is in the Lean model (theorem ioworker_shutdown: the socket is shut down for writing only once everything queued has been written, at most once, and is shut down once a request that had to wait is drained); a request made when nothing is pending is never carried out by the code, and the model says the same"]
     rule = ("case A = op sequence over {send, send_fast(outcome), loop iteration(outcome), loop iteration with the worker readable AND writable (data / end of stream / receive error, then outcome)}; case B = action sequence over {Connection.send(data, outcome), sender iteration(outcomes), "
-            "other connection defers / is flushed}; corpus = all sequences of 3 messages x 4 calls over 6 outcomes (A) and all B sequences of length <= 4 over a 9-letter alphabet; "
+            "other connection defers / is flushed}; case M = history of whole operations on 2-3 REAL connections sharing one DeferredSender {Connection.send(c, data, outcome), one sender pass reporting a set of connections writable "
+            "(outcomes per connection), disconnect()/close() of any connection}, always followed by one more send per connection and two passes in which every socket takes everything; the property is demanded of EVERY connection; "
+            "corpus = all sequences of 3 messages x 4 calls over 6 outcomes (A), all B sequences of length <= 4 over a 9-letter alphabet, all M histories of length <= 3 over 14 letters (two connections), a second connection's whole life placed "
+            "at every pair of points of a fixed history, three connections (which hold a backlog x how the third leaves x with/without its own queue), three connections writable in one pass with every outcome pattern; "
             "every case carries the errno of its fatal outcome (14 numbers) and the spelling of would-block (EAGAIN / EWOULDBLOCK): every error other than would-block is fatal (the code's rule, the model's single `fatal` outcome); "
             "non-trivial = a partial write, EAGAIN or fatal outcome was consumed")
 
@@ -171,6 +187,71 @@ class C20(Check):
         # error is interleaved at the log call between Connection.send's `disconnected`/`sending` tests and its deferred enqueue
         cases.append({"part": "B", "pb": 512, "ops": [{"op": "send", "i": 0, "n": 1, "o": 3}, {"op": "send_raced", "i": 1, "n": 1, "outs": [4]},
                                                         {"op": "flush", "outs": [{"o": "accept", "k": 1}]}, {"op": "flush", "outs": []}]})
+        cases += self._corpus_m()
+        return cases
+
+    # part M: 2-3 REAL connections share the one deferred sender (one `_dataForConnection`, one `sending` flag, one thread).
+    # Every connection sends, gets deferred, is flushed, fails fatally, is disconnected / closed at every point of the
+    # others' histories; the oracle is the property per connection, the model gives every connection its own view.
+    @staticmethod
+    def _probe(n):
+        """after the history: every connection sends once more (a wrong `sending` flag or a stale queue shows here), then
+        two sender passes in which every socket is writable and takes everything"""
+        allw = [[j, []] for j in range(n)]
+        return [{"op": "send", "c": j, "i": 90 + j, "n": 4, "o": 0} for j in range(n)] + [{"op": "flush", "w": allw}, {"op": "flush", "w": allw}]
+
+    @staticmethod
+    def _number(ops):
+        out = []
+        for k, op in enumerate(ops):
+            op = dict(op)
+            if op["op"] == "send" and "i" not in op: op["i"] = k
+            out.append(op)
+        return out
+
+    def _corpus_m(self):
+        cases = []
+        A, B, C = 0, 1, 2
+        alpha = [{"op": "send", "c": A, "n": 5, "o": 1}, {"op": "send", "c": A, "n": 4, "o": 0}, {"op": "send", "c": A, "n": 3, "o": 3}, {"op": "send", "c": A, "n": 3, "o": 4},
+                 {"op": "send", "c": B, "n": 4, "o": 0}, {"op": "send", "c": B, "n": 5, "o": 2}, {"op": "send", "c": B, "n": 3, "o": 4},
+                 {"op": "flush", "w": [[A, [1]]]}, {"op": "flush", "w": [[A, []], [B, []]]}, {"op": "flush", "w": [[B, [4]]]}, {"op": "flush", "w": [[B, []]]},
+                 {"op": "disc", "c": B, "how": "close"}, {"op": "disc", "c": B, "how": "disconnect"}, {"op": "disc", "c": A, "how": "close"}]
+        # all histories of length <= 3 over the 14 letters, two connections
+        for L in range(1, 4):
+            for seq in itertools.product(alpha, repeat=L):
+                cases.append({"part": "M", "pb": 2, "n": 2, "ops": self._number(seq) + self._probe(2)})
+        # "at every point": a fixed history of A (partial write, deferred sends, short flushes), with B's whole life — idle or
+        # sending or deferred, then leaving in every way — placed at every pair of positions
+        base = [{"op": "send", "c": A, "n": 6, "o": 2}, {"op": "send", "c": A, "n": 3, "o": 0}, {"op": "flush", "w": [[A, [1, 3]]]},
+                {"op": "send", "c": A, "n": 2, "o": 0}, {"op": "flush", "w": [[A, [0, 1]]]}]
+        lives = [[{"op": "send", "c": B, "n": 4, "o": 0}], [{"op": "send", "c": B, "n": 4, "o": 3}], [{"op": "send", "c": B, "n": 4, "o": 1}], []]
+        leaves = [[{"op": "disc", "c": B, "how": "close"}], [{"op": "disc", "c": B, "how": "disconnect"}], [{"op": "send", "c": B, "n": 2, "o": 4}],
+                  [{"op": "flush", "w": [[B, [4]]]}], [{"op": "flush", "w": [[B, []]]}, {"op": "disc", "c": B, "how": "close"}],
+                  [{"op": "disc", "c": B, "how": "disconnect"}, {"op": "disc", "c": B, "how": "close"}]]
+        for p1 in range(len(base) + 1):
+            for p2 in range(p1, len(base) + 1):
+                for lv in lives:
+                    for lf in leaves:
+                        ops = base[:p1] + lv + base[p1:p2] + lf + base[p2:]
+                        cases.append({"part": "M", "pb": 2, "n": 2, "ops": self._number(ops) + self._probe(2)})
+        # three connections: which of A, B hold a backlog when C leaves (with or without a queue of its own), in which way
+        for backlog in ([], [A], [B], [A, B]):
+            for cq in (None, 0, 3, 1):                         # C: silent / sent everything / deferred whole / deferred a rest
+                for lf in ("close", "disconnect", "fatal-send", "fatal-flush", "flush-then-close", None):
+                    for order in (0, 1):
+                        pre = [{"op": "send", "c": j, "n": 5, "o": 1} for j in backlog]
+                        cs = [] if cq is None else [{"op": "send", "c": C, "n": 4, "o": cq}]
+                        ops = (pre + cs) if order == 0 else (cs + pre)
+                        if lf in ("close", "disconnect"): ops = ops + [{"op": "disc", "c": C, "how": lf}]
+                        elif lf == "fatal-send": ops = ops + [{"op": "send", "c": C, "n": 2, "o": 4}]
+                        elif lf == "fatal-flush": ops = ops + [{"op": "flush", "w": [[C, [4]]]}]
+                        elif lf == "flush-then-close": ops = ops + [{"op": "flush", "w": [[C, []]]}, {"op": "disc", "c": C, "how": "close"}]
+                        for pb in (2, 512):
+                            cases.append({"part": "M", "pb": pb, "n": 3, "ops": self._number(ops) + self._probe(3)})
+        # several connections writable in ONE sender pass, one of them failing / short / blocked, in every position
+        for outs in itertools.product([[], [1], [3], [4]], repeat=3):
+            pre = [{"op": "send", "c": j, "n": 5, "o": 3} for j in (A, B, C)]
+            cases.append({"part": "M", "pb": 2, "n": 3, "ops": self._number(pre + [{"op": "flush", "w": [[j, list(outs[j])] for j in (A, B, C)]}]) + self._probe(3)})
         return cases
 
     def generate(self, rng, tier):
@@ -199,6 +280,19 @@ class C20(Check):
                     elif r < 0.93: ops.append({"op": "envenq"})
                     else: ops.append({"op": "envdone"})
                 yield {"part": "B", "pb": rng.choice([1, 2, 4, 512]), "ferr": rng.choice(FERRS), "aerr": rng.choice(AERRS), "ops": ops + [{"op": "flush", "outs": []}] * 2}
+        for c in range(150 if tier == "quick" else 5000):
+            nc = rng.choice([2, 2, 3])
+            ops = []
+            for k in range(rng.choice([4, 8, 14, rng.randint(1, 30)])):
+                r = rng.random()
+                if r < 0.5:
+                    ops.append({"op": "send", "c": rng.randrange(nc), "i": k, "n": rng.choice([1, 2, 5, 9, rng.randint(1, 20)]), "o": self._rout(rng)})
+                    if rng.random() < 0.2: ops[-1]["more"] = [self._rout(rng) for _ in range(rng.randint(1, 2))]
+                elif r < 0.85:
+                    ops.append({"op": "flush", "w": [[j, [self._rout(rng) for _ in range(rng.randint(0, 3))]] for j in range(nc) if rng.random() < 0.6]})
+                else:
+                    ops.append({"op": "disc", "c": rng.randrange(nc), "how": rng.choice(["close", "close", "disconnect"])})
+            yield {"part": "M", "pb": rng.choice([1, 2, 4, 512]), "n": nc, "ferr": rng.choice(FERRS), "aerr": rng.choice(AERRS), "ops": ops + self._probe(nc)}
         # part T: the REAL threads (cooperative thread in Connection.send, sender thread in DeferredSender.run) under the forced
         # thread scheduler; the executed trace is translated into model actions and replayed through cstep
         for c in self._thread_cases(rng, tier): yield c
@@ -250,6 +344,7 @@ class C20(Check):
             self.max_steps_seen = max(self.max_steps_seen, r["steps"] if isinstance(r["steps"], int) else len(r["steps"]))
             if r["status"] == "harness-budget": o["status"] = "T:runaway:the send path did not come to rest within the step budget"
             return o
+        if case["part"] == "M": return self._impl_m(case)
         return self._impl_a(case) if case["part"] == "A" else self._impl_b(case)
 
     def _impl_a(self, case):
@@ -392,6 +487,89 @@ class C20(Check):
         return {"accepted": s1.accepted[hello:].hex(), "pending": pend, "disc": bool(con.disconnected), "sending": bool(ds.sending),
                 "offered_after_disc": s1.offered_after_fatal, "queued": queued.hex(), "status": status, "downs": [downs["nexus"], downs["con"]]}
 
+    def _impl_m(self, case):
+        """n real Connections over scripted sockets, ONE real DeferredSender whose thread body is driven by the harness"""
+        of_01 = self.of_01
+        old_ds, old_pb, old_select = of_01.deferredSender, of_01.PIPE_BUF, of_01.select
+        core = poxenv.boot()
+        core.addListeners = lambda *a, **k: None
+        try: ds = self.DS()
+        finally: del core.addListeners
+        of_01.deferredSender = ds
+        of_01.PIPE_BUF = case["pb"]
+        n = case["n"]
+        status, died, cwb = "ok", [None], [False]
+        plan = {"want": [], "calls": 0, "refused": 0}
+        class FakeSelect:
+            """keeps select's contract: a closed socket (fileno() < 0) in any list is refused with ValueError, as by the real
+            select.select; writable = the planned connections among those asked about, in the order asked"""
+            error = OSError
+            @staticmethod
+            def select(r, w, x, t=None):
+                for c in list(w) + list(x):
+                    fd = c if isinstance(c, int) else c.fileno()
+                    if fd < 0:
+                        plan["refused"] += 1
+                        if plan["refused"] > 3: raise StopLoop()        # a sender that keeps selecting on the same dead socket
+                        raise ValueError("file descriptor cannot be a negative integer (%d)" % fd)
+                plan["calls"] += 1
+                if plan["calls"] > 1: raise StopLoop()
+                return ([], [c for c in w if any(c is y for y in plan["want"])], [])
+        of_01.select = FakeSelect
+        socks, cons, queued, downs, hello = [], [], [], [], []
+        try:
+            for j in range(n):
+                sk = MSock(j); sk.ferr, sk.aerr = case.get("ferr", "EPIPE"), case.get("aerr", "EAGAIN")
+                socks.append(sk); cons.append(of_01.Connection(sk)); queued.append(b""); downs.append([0, 0]); hello.append(len(sk.accepted))
+            def announce(j):
+                class Nexus:
+                    def _disconnect(self, dpid, c=None): return True
+                    def raiseEventNoErrors(self, ev, *a, **k):
+                        if getattr(ev, "__name__", "") == "ConnectionDown": downs[j][0] += 1
+                cons[j].ofnexus = Nexus(); cons[j].dpid = j + 1; cons[j].connect_time = 1.0
+                cons[j].addListenerByName("ConnectionDown", lambda e: downs[j].__setitem__(1, downs[j][1] + 1))
+            for j in range(n): announce(j)
+            def iteration(w):
+                if died[0]: return                      # the sender thread is gone: nobody flushes any more
+                plan["want"] = [cons[j] for j, _ in w] + [socks[j] for j, _ in w]
+                plan["calls"], plan["refused"] = 0, 0
+                for j, outs in w: socks[j].script = [self._o(o) for o in outs]
+                try: ds.run()
+                except StopLoop: pass
+                except BaseException as e:              # an exception that leaves DeferredSender.run ends the thread
+                    died[0] = "%s: %s" % (type(e).__name__, str(e)[:60])
+                for j, _ in w: socks[j].script = []
+            for op in case["ops"]:
+                if op["op"] == "send":
+                    j = op["c"]; d = data(op["i"], op["n"])
+                    if not cons[j].disconnected: queued[j] += d
+                    socks[j].script = [self._o(op["o"])] + [self._o(o) for o in op.get("more", [])]
+                    cons[j].send(d)
+                    socks[j].script = []
+                elif op["op"] == "flush":
+                    iteration([(j, outs) for j, outs in op["w"]])
+                else:
+                    j = op["c"]
+                    # (for the finding key only) is a connection closed while bytes it queued are still unwritten?
+                    if op["how"] == "close" and not socks[j].fatal_seen and len(queued[j]) > len(socks[j].accepted) - hello[j]: cwb[0] = True
+                    if op["how"] == "close": cons[j].close()
+                    else: cons[j].disconnect()
+            # what the serving task does with a connection it finds disconnected (its read returns False): con.close()
+            for j in range(n):
+                if cons[j].disconnected:
+                    cons[j].close(); cons[j].close()
+        except Exception as e:
+            status = "raise:" + type(e).__name__ + ":" + str(e)[:60]
+        finally:
+            of_01.deferredSender, of_01.PIPE_BUF, of_01.select = old_ds, old_pb, old_select
+        per = []
+        for j in range(len(cons)):
+            try: pend = [bytes(x).hex() for x in ds._dataForConnection.get(cons[j], [])]
+            except Exception as e: pend = ["?" + type(e).__name__]
+            per.append({"accepted": socks[j].accepted[hello[j]:].hex(), "pending": pend, "disc": bool(cons[j].disconnected),
+                        "offered_after_disc": socks[j].offered_after_fatal, "queued": queued[j].hex(), "downs": downs[j]})
+        return {"cons": per, "sending": bool(ds.sending), "status": status, "sender_died": died[0], "closed_with_backlog": cwb[0]}
+
     # ------------------------------------------------------------------ model
     def model_request2(self, case, obs):
         if case["part"] != "T" or "acts" not in obs: return None
@@ -408,6 +586,13 @@ class C20(Check):
                 elif op["op"] == "shutdown": ops.append({"op": "shutdown"})
                 else: ops.append(dict(op="pump", **self._o(op["o"])))
             return {"part": "A", "ops": ops, "guard": self.guard_closed}
+        if case["part"] == "M":
+            ops = []
+            for op in case["ops"]:
+                if op["op"] == "send": ops.append(dict(op="send", c=op["c"], d=data(op["i"], op["n"]).hex(), **self._o(op["o"])))
+                elif op["op"] == "flush": ops.append({"op": "flush", "w": [{"c": j, "outs": [self._o(o) for o in outs]} for j, outs in sorted(op["w"], key=lambda x: x[0])]})
+                else: ops.append({"op": "disc", "c": op["c"], "close": op["how"] == "close"})
+            return {"part": "M", "pb": case["pb"], "n": case["n"], "ops": ops}
         acts, total = [], 0
         for op in case["ops"]:
             if op["op"] == "send":
@@ -430,10 +615,14 @@ class C20(Check):
     def impl_view(self, case, obs):
         if case["part"] == "A":
             return {k: obs[k] for k in ("accepted", "send_buf", "closed", "close_events", "offered", "shut_wr")}
+        if case["part"] == "M":
+            return {"views": [dict({k: c[k] for k in ("accepted", "pending", "disc", "offered_after_disc")}, sending=obs["sending"]) for c in obs["cons"]]}
         return {k: obs[k] for k in ("accepted", "pending", "disc", "sending", "offered_after_disc")}
 
     def model_obs(self, case, resp):
         if "error" in resp: return resp
+        if case["part"] == "M":
+            return {"views": [{k: v[k] for k in ("accepted", "pending", "disc", "offered_after_disc", "sending")} for v in resp["views"]]}
         keys = ("accepted", "send_buf", "closed", "close_events", "offered", "shut_wr") if case["part"] == "A" else ("accepted", "pending", "disc", "sending", "offered_after_disc")
         return {k: resp[k] for k in keys}
 
@@ -457,6 +646,7 @@ class C20(Check):
             if obs["offered_after_fatal"]: return "write attempted after a fatal socket error"
             if obs["close_events"] != (1 if obs["closed"] else 0): return "close reported %d times" % obs["close_events"]
             return None
+        if case["part"] == "M": return self._oracle_m(case, obs)
         acc, queued = bytes.fromhex(obs["accepted"]), bytes.fromhex(obs["queued"])
         if not queued.startswith(acc): return "socket accepted bytes that are not a prefix of the queued stream"
         pend = b"".join(bytes.fromhex(p) for p in obs["pending"])
@@ -469,12 +659,42 @@ class C20(Check):
         if obs["offered_after_disc"]: return "write attempted after a fatal socket error"
         return None
 
+    def _oracle_m(self, case, obs):
+        """the property, for every one of the connections that share the deferred sender"""
+        ops, n = case["ops"], case["n"]
+        # did the history end with a sender pass in which every connection was writable and its socket took everything?
+        drained = bool(ops) and ops[-1]["op"] == "flush" and sorted(j for j, _ in ops[-1]["w"]) == list(range(n)) and all(not outs for _, outs in ops[-1]["w"])
+        for j, c in enumerate(obs["cons"]):
+            acc, queued = bytes.fromhex(c["accepted"]), bytes.fromhex(c["queued"])
+            who = " (connection %d of %d)" % (j, n)
+            if not queued.startswith(acc): return "socket accepted bytes that are not a prefix of the queued stream" + who
+            try: pend = b"".join(bytes.fromhex(p) for p in c["pending"])
+            except ValueError: pend = None
+            if not c["disc"]:
+                if pend is None or acc + pend != queued: return "live connection: accepted + deferred != queued (lost/duplicated/reordered)" + who
+                if drained and pend:
+                    return ("live connection: queued bytes are never written - still deferred after a sender pass in which its socket was writable and took everything"
+                            + who + (" [the sender thread ended: %s]" % obs["sender_died"] if obs["sender_died"] else ""))
+            if c["downs"] != ([1, 1] if c["disc"] else [0, 0]):
+                return "connection reported closed %s times (nexus, connection), expected %s" % (c["downs"], [1, 1] if c["disc"] else [0, 0]) + who
+            if c["offered_after_disc"]: return "write attempted after a fatal socket error" + who
+        return None
+
     def finding_key(self, case, obs, failure):
+        if case["part"] == "M":
+            return "M" + (":closed-with-backlog" if obs.get("closed_with_backlog") else "") + ":" + failure.split(" (connection ")[0][:70]
         raced = ":raced-send" if any(op["op"] == "send_raced" for op in case.get("ops", [])) else ""
         return case["part"] + raced + ":" + failure[:60]
 
     def nontrivial(self, case, obs):
         if case["part"] == "T": return len(case["tcase"]["outs"]) > 0
+        if case["part"] == "M":
+            for op in case["ops"]:
+                if op["op"] == "disc": return True
+                for o in ([op["o"]] if op["op"] == "send" else [o for _, outs in op["w"] for o in outs]):
+                    o = self._o(o)
+                    if o["o"] != "accept" or o["k"] < 1 << 20: return True
+            return False
         for op in case["ops"]:
             for o in ([op["o"]] if "o" in op else op.get("outs", [])) if op["op"] != "send_raced" else [4]:
                 o = self._o(o)
